@@ -562,75 +562,96 @@ Proof.
   - right. simpl. apply in_or_app. right. assumption.
 Qed.
 
-(* ------------------------------------------------------------------ the environment keeps to handed-out locations *)
-Definition Rw (T : path) (s0 s : state) (H : list path) : Prop :=
-  Inv T s /\
-  (forall l, In l H -> child_of T l = true /\ exists c, look (s_fs s) l = File c) /\
-  (forall q, is_prefix T q = false -> look (s_fs s) q = look (s_fs s0) q) /\
-  (forall dst, In dst (outs_of s) -> is_prefix T dst = false -> look (s_fs s0) dst = Absent).
-
+(* ------------------------------------------------------------------ what a life does outside its own directory
+   (NO hypothesis on where the environment writes) *)
 Lemma child_prefix : forall T l, child_of T l = true -> is_prefix T l = true.
 Proof. intros. apply under_is_prefix, child_under. assumption. Qed.
 
-Lemma step_keeps_Rw : forall T s0 s H o s' x,
-  Rw T s0 s H -> mid_op o = true -> step s o = (s', x) -> (forall q c, o = WriteTo q c -> In q H) ->
-  Rw T s0 s' (match x with OLoc l => l :: H | _ => H end).
+(* nothing that existed before the life disappears while the tracker lives; what is scheduled
+   for copy-out did not exist before the life *)
+Definition Rm (T : path) (f0 : fs) (s : state) : Prop :=
+  Inv T s /\
+  (forall q, look f0 q <> Absent -> look (s_fs s) q <> Absent) /\
+  (forall dst, In dst (outs_of s) -> look f0 dst = Absent).
+
+Lemma step_keeps_Rm : forall T f0 s o s' x,
+  Rm T f0 s -> mid_op o = true -> step s o = (s', x) -> Rm T f0 s'.
 Proof.
-  intros T s0 s H o s' x [HI [HH [HFr HOa]]] Hm Hs Hw.
+  intros T f0 s o s' x [HI [HM HOa]] Hm Hs.
   assert (HI' := step_keeps_inv T s o s' x HI Hm Hs).
   split; [assumption|].
   destruct HI as [t [Ht [HT [HF [HL HO]]]]].
   destruct (step_some s t T o s' x Ht HT (proj1 HF) Hm Hs) as [t' [Ht' [HT' Hc]]].
-  destruct Hc as [[E1 [E2 [E3 _]]] | [[p [c [Eo [E2 [Ex [ND [PD E]]]]]]] | [p [io [n [Eo [Ex [Ec [Ea [Ne [E [EL [_ EO]]]]]]]]]]]]].
-  - subst t'. rewrite E1. split; [|split; [assumption|]].
-    + destruct x; try assumption. intros l' [Hl|Hl]; [|apply HH; assumption]. subst l'.
-      destruct (E3 l eq_refl) as [p [_ Hp]]. apply (HL p l Hp).
+  destruct Hc as [[E1 [E2 _]] | [[p [c [Eo [E2 [Ex [ND [PD E]]]]]]] | [p [io [n [Eo [Ex [Ec [Ea [Ne [E [EL [_ EO]]]]]]]]]]]]].
+  - subst t'. rewrite E1. split; [assumption|]. unfold outs_of in *. rewrite Ht'. rewrite Ht in HOa. assumption.
+  - subst t'. split.
+    + intros q Hq. rewrite E. destruct (path_eqb p q); [discriminate | apply HM; assumption].
     + unfold outs_of in *. rewrite Ht'. rewrite Ht in HOa. assumption.
-  - subst t' x. assert (P : putrel (s_fs s) (s_fs s') p) by (split; [assumption|]; split; [assumption|]; eauto).
-    split; [|split].
-    + intros l Hl. destruct (HH l Hl) as [A B]. split; [assumption|]. eapply putrel_file; eauto.
-    + intros q Hq. rewrite E. rewrite eqb_if; [apply HFr; assumption|]. intro; subst q.
-      destruct (HH p (Hw p c Eo)) as [A _]. apply child_prefix in A. congruence.
-    + unfold outs_of in *. rewrite Ht'. rewrite Ht in HOa. assumption.
-  - subst x. assert (P : putrel (s_fs s) (s_fs s') (T ++ [n])).
-    { split; [congruence|]. split; [rewrite parent_child; apply HF|]. eauto. }
-    assert (Htp : is_prefix T (T ++ [n]) = true) by (apply is_prefix_spec; eauto).
-    split; [|split].
-    + intros l Hl. destruct (HH l Hl) as [A B]. split; [assumption|]. eapply putrel_file; eauto.
-    + intros q Hq. rewrite E. rewrite eqb_if; [apply HFr; assumption|]. intro; subst q. congruence.
+  - split.
+    + intros q Hq. rewrite E. destruct (path_eqb (T ++ [n]) q); [discriminate | apply HM; assumption].
     + unfold outs_of in *. rewrite Ht'. rewrite Ht in HOa. rewrite EO.
       destruct (negb io && n_is_absent (look (s_fs s) p)) eqn:Eb; [|assumption].
-      intros dst Hd Hpre. apply in_app_or in Hd. destruct Hd as [Hd|[Hd|[]]]; [apply HOa; assumption|].
+      intros dst Hd. apply in_app_or in Hd. destruct Hd as [Hd|[Hd|[]]]; [apply HOa; assumption|].
       subst dst. apply andb_true_iff in Eb. destruct Eb as [_ Eb]. apply n_is_absent_true in Eb.
-      rewrite <- HFr by assumption. assumption.
+      destruct (look f0 p) eqn:E0; [reflexivity| |]; exfalso; apply (HM p); solve [rewrite E0; discriminate | assumption].
 Qed.
 
-Lemma run_keeps_Rw : forall T s0 mid s H,
-  forallb mid_op mid = true -> writes_ok s H mid = true -> Rw T s0 s H ->
-  exists H', Rw T s0 (fst (run s mid)) H'.
+Lemma alive_Rm : forall f0 d n0 mid, wf f0 -> look f0 d = Dir -> look f0 (d ++ [n0]) = Absent ->
+  forallb mid_op mid = true -> Rm (d ++ [n0]) f0 (alive f0 (Some d) n0 mid).
 Proof.
-  intros T s0. apply (run_ind_w (Rw T s0)). intros. eapply step_keeps_Rw; eauto.
+  intros f0 d n0 mid W HD HA Hm. rewrite alive_some by assumption.
+  apply (run_ind_u (Rm (d ++ [n0]) f0)); [intros; eapply step_keeps_Rm; eauto | assumption |].
+  split; [apply create_inv; assumption|]. split.
+  - intros q Hq. simpl. rewrite look_put_dir. destruct (path_eqb (d ++ [n0]) q); [discriminate | assumption].
+  - intros dst [].
 Qed.
 
-Lemma writes_ok_create : forall f0 d n0 mid, look f0 d = Dir -> look f0 (d ++ [n0]) = Absent ->
-  writes_ok (start f0) [] (Create (Some d) n0 :: mid) =
-  writes_ok {| s_fs := put_dir (d ++ [n0]) f0; s_tr := Some (new_tracker (Some (d ++ [n0]))) |} [] mid.
+(* a path outside the tracker's directory that the environment does not write keeps what it held *)
+Lemma nw_and : forall (P : op -> bool) mid,
+  forallb mid_op mid = true -> forallb P mid = true -> forallb (fun o => mid_op o && P o) mid = true.
 Proof.
-  intros. change (writes_ok (start f0) [] (Create (Some d) n0 :: mid))
-    with (let '(s1, x) := step (start f0) (Create (Some d) n0) in
-          true && writes_ok s1 (match x with OLoc l => l :: [] | _ => [] end) mid).
-  rewrite create_some by assumption. reflexivity.
+  intros P mid Hm Hw. induction mid as [|o r IH]; [reflexivity|]. simpl in *.
+  apply andb_true_iff in Hm. apply andb_true_iff in Hw. destruct Hm, Hw.
+  apply andb_true_iff. split; [apply andb_true_iff; split; assumption | auto].
 Qed.
 
-Lemma alive_Rw : forall f0 d n0 mid, wf f0 -> look f0 d = Dir -> look f0 (d ++ [n0]) = Absent ->
-  forallb mid_op mid = true -> writes_ok (start f0) [] (Create (Some d) n0 :: mid) = true ->
-  exists H', Rw (d ++ [n0]) {| s_fs := put_dir (d ++ [n0]) f0; s_tr := Some (new_tracker (Some (d ++ [n0]))) |}
-                (alive f0 (Some d) n0 mid) H'.
+Lemma alive_frame : forall f0 d n0 mid q, wf f0 -> look f0 d = Dir -> look f0 (d ++ [n0]) = Absent ->
+  forallb mid_op mid = true -> is_prefix (d ++ [n0]) q = false ->
+  forallb (fun o => negb (writes_to q o)) mid = true ->
+  look (s_fs (alive f0 (Some d) n0 mid)) q = look f0 q.
 Proof.
-  intros f0 d n0 mid W HD HA Hm Hw. rewrite alive_some by assumption.
-  rewrite writes_ok_create in Hw by assumption.
-  eapply run_keeps_Rw; eauto. split; [apply create_inv; assumption|]. split; [intros l []|]. split; [reflexivity|].
-  intros dst [].
+  intros f0 d n0 mid q W HD HA Hm Hq Hw. rewrite alive_some by assumption.
+  apply (run_ind_p (fun o => mid_op o && negb (writes_to q o))
+           (fun s => Inv (d ++ [n0]) s /\ look (s_fs s) q = look f0 q)).
+  - intros s o s' x [HI HQ] Ho Hs. apply andb_true_iff in Ho. destruct Ho as [Ho1 Ho2].
+    apply negb_true_iff in Ho2. split; [eapply step_keeps_inv; eauto|].
+    destruct HI as [t [Ht [HT [HF _]]]].
+    destruct (step_some s t _ o s' x Ht HT (proj1 HF) Ho1 Hs) as [t' [_ [_ Hc]]].
+    destruct Hc as [[E1 _] | [[p [c [Eo [_ [_ [_ [_ E]]]]]]] | [p [io [n [_ [_ [_ [_ [_ [E _]]]]]]]]]]].
+    + rewrite E1. assumption.
+    + subst o. simpl in Ho2. rewrite E, Ho2. assumption.
+    + rewrite E. rewrite eqb_if; [assumption|]. intro; subst q.
+      assert (X : is_prefix (d ++ [n0]) ((d ++ [n0]) ++ [n]) = true) by (apply is_prefix_spec; eauto). congruence.
+  - apply nw_and; assumption.
+  - split; [apply create_inv; assumption|]. simpl. rewrite look_put_dir.
+    apply not_prefix in Hq. rewrite eqb_if by (intro; subst; tauto). reflexivity.
+Qed.
+
+Lemma not_written : forall q mid, ~ In q (written mid) -> forallb (fun o => negb (writes_to q o)) mid = true.
+Proof.
+  intros q mid H. induction mid as [|o r IH]; [reflexivity|]. simpl.
+  apply andb_true_iff. split.
+  - destruct o as [| | | |p c|]; try reflexivity. simpl. apply negb_true_iff. apply path_eqb_neq.
+    intro; subst p. apply H. simpl. auto.
+  - apply IH. intro Hi. apply H. unfold written. simpl. apply in_or_app. right. exact Hi.
+Qed.
+
+Lemma outs_requested : forall f0 d n0 mid, wf f0 -> look f0 d = Dir -> look f0 (d ++ [n0]) = Absent ->
+  forallb mid_op mid = true ->
+  forall dst, In dst (outs_of (alive f0 (Some d) n0 mid)) -> In dst (requested mid).
+Proof.
+  intros f0 d n0 mid W HD HA Hm dst Hd. rewrite alive_some in Hd by assumption.
+  destruct (run_out_sub (d ++ [n0]) mid _ Hm (create_inv f0 d n0 W HA) dst Hd) as [A|A]; [contradiction | assumption].
 Qed.
 
 (* ------------------------------------------------------------------ (2) scratch empty *)
@@ -639,30 +660,27 @@ Theorem tracker_scratch_empty : forall f0 d n0 mid,
   s_tr (life f0 (Some d) n0 mid) = None /\
   snd (step (alive f0 (Some d) n0 mid) Del) = OOk /\
   (forall q, is_prefix (d ++ [n0]) q = true -> look (s_fs (life f0 (Some d) n0 mid)) q = Absent) /\
-  (writes_ok (start f0) [] (Create (Some d) n0 :: mid) = true ->
-   forall q, look f0 q = Absent -> look (s_fs (life f0 (Some d) n0 mid)) q <> Absent ->
-             In q (requested mid)).
+  (forall q, look f0 q = Absent -> look (s_fs (life f0 (Some d) n0 mid)) q <> Absent ->
+             In q (requested mid) \/ In q (written mid)).
 Proof.
   intros f0 d n0 mid W HD HA Hm.
   assert (HI := alive_inv f0 d n0 mid W HD HA Hm).
   destruct (del_spec (d ++ [n0]) _ HI) as [t [g [h [Ht [Hc [Hs [Hh [Hg _]]]]]]]].
   rewrite life_alive, Hs. simpl. split; [reflexivity|]. split; [reflexivity|]. split.
   - intros q Hq. rewrite Hh, Hq. reflexivity.
-  - intros Hw q Hq0 Hq1.
-    destruct (alive_Rw f0 d n0 mid W HD HA Hm Hw) as [H' [_ [_ [HFr _]]]].
+  - intros q Hq0 Hq1.
     rewrite Hh in Hq1. destruct (is_prefix (d ++ [n0]) q) eqn:Ep; [congruence|].
     destruct (in_dec (list_eq_dec Z.eq_dec) q (t_out t)) as [Hi|Hi].
-    + rewrite alive_some in Ht by assumption.
-      destruct (run_out_sub (d ++ [n0]) mid _ Hm (create_inv f0 d n0 W HA) q) as [A|A]; [|contradiction|assumption].
-      unfold outs_of. rewrite Ht. assumption.
-    + exfalso. apply Hq1. rewrite Hg by assumption. rewrite HFr by assumption. simpl.
-      rewrite look_put_dir. apply not_prefix in Ep. rewrite eqb_if by (intro; subst; tauto). assumption.
+    + left. apply (outs_requested f0 d n0 mid W HD HA Hm). unfold outs_of. rewrite Ht. assumption.
+    + destruct (in_dec (list_eq_dec Z.eq_dec) q (written mid)) as [Hw|Hw]; [right; assumption|].
+      exfalso. apply Hq1. rewrite Hg by assumption.
+      rewrite (alive_frame f0 d n0 mid q W HD HA Hm Ep (not_written q mid Hw)). assumption.
 Qed.
 
 (* ------------------------------------------------------------------ (1) inputs untouched *)
 Theorem tracker_inputs_untouched_some : forall f0 d n0 mid p c,
   wf f0 -> look f0 d = Dir -> look f0 (d ++ [n0]) = Absent -> forallb mid_op mid = true ->
-  writes_ok (start f0) [] (Create (Some d) n0 :: mid) = true ->
+  forallb (fun o => negb (writes_to p o)) mid = true ->
   look f0 p = File c ->
   look (s_fs (alive f0 (Some d) n0 mid)) p = File c /\
   look (s_fs (life f0 (Some d) n0 mid)) p = File c.
@@ -671,16 +689,13 @@ Proof.
   assert (Hout : is_prefix (d ++ [n0]) p = false).
   { destruct (is_prefix (d ++ [n0]) p) eqn:E; [|reflexivity].
     rewrite (wf_under_absent f0 _ p W HA E) in Hp. discriminate. }
-  destruct (alive_Rw f0 d n0 mid W HD HA Hm Hw) as [H' [HI [_ [HFr HOa]]]].
   assert (H1 : look (s_fs (alive f0 (Some d) n0 mid)) p = File c).
-  { rewrite HFr by assumption. simpl. rewrite look_put_dir.
-    apply not_prefix in Hout. rewrite eqb_if by (intro; subst; tauto). assumption. }
+  { rewrite (alive_frame f0 d n0 mid p W HD HA Hm Hout Hw). assumption. }
   split; [assumption|].
+  destruct (alive_Rm f0 d n0 mid W HD HA Hm) as [HI [_ HOa]].
   destruct (del_spec _ _ HI) as [t [g [h [Ht [Hc [Hs [Hh [Hg _]]]]]]]].
   rewrite life_alive, Hs. simpl. rewrite Hh, Hout, Hg; [assumption|].
-  intro Hi. assert (X := HOa p). unfold outs_of in X. rewrite Ht in X. specialize (X Hi Hout).
-  simpl in X. rewrite look_put_dir in X. apply not_prefix in Hout.
-  rewrite eqb_if in X by (intro; subst; tauto). congruence.
+  intro Hi. assert (X := HOa p). unfold outs_of in X. rewrite Ht in X. specialize (X Hi). congruence.
 Qed.
 
 (* without a temp directory the tracker does nothing to the file system *)
@@ -766,97 +781,141 @@ Proof.
   - rewrite E. rewrite eqb_if; [reflexivity|]. intro; subst l. contradiction.
 Qed.
 
-Lemma run_ind_w_app : forall (R : state -> list path -> Prop),
-  (forall s H o s' x, R s H -> mid_op o = true -> step s o = (s', x) ->
-      (forall q c, o = WriteTo q c -> In q H) ->
-      R s' (match x with OLoc l => l :: H | _ => H end)) ->
-  forall a s H b, forallb mid_op a = true -> writes_ok s H (a ++ b) = true -> R s H ->
-  exists H', R (fst (run s a)) H' /\ writes_ok (fst (run s a)) H' b = true.
+(* a file stays a file while the tracker lives *)
+Lemma file_stays : forall T l mid s, forallb mid_op mid = true -> Inv T s ->
+  (exists c, look (s_fs s) l = File c) -> exists c, look (s_fs (fst (run s mid))) l = File c.
 Proof.
-  intros R HR. induction a as [|o r IH]; intros s H b Hm Hw H0; [exists H; split; assumption|].
-  simpl in Hm. apply andb_true_iff in Hm. destruct Hm as [Hm1 Hm2].
-  rewrite fst_run_cons. rewrite <- app_comm_cons in Hw. simpl in Hw.
-  destruct (step s o) as [s1 x] eqn:E. simpl.
-  apply andb_true_iff in Hw. destruct Hw as [Hw1 Hw2].
-  eapply IH; [assumption | exact Hw2 |].
-  eapply HR; eauto. intros q c Eo. subst o. apply mem_In. assumption.
+  intros T l mid s Hm HI HF.
+  assert (X : Inv T (fst (run s mid)) /\ exists c, look (s_fs (fst (run s mid))) l = File c); [|apply X].
+  apply (run_ind_u (fun s => Inv T s /\ exists c, look (s_fs s) l = File c)); [|assumption|auto].
+  intros s1 o s2 x [HI1 HF1] Ho Hs. split; [eapply step_keeps_inv; eauto|].
+  destruct HI1 as [t [Ht [HT [HFl _]]]].
+  destruct (step_some s1 t T o s2 x Ht HT (proj1 HFl) Ho Hs) as [t' [_ [_ Hc]]].
+  destruct Hc as [[E1 _] | [[p [c [_ [_ [_ [_ [_ E]]]]]]] | [p [io [n [_ [_ [_ [_ [_ [E _]]]]]]]]]]].
+  - rewrite E1. assumption.
+  - destruct HF1 as [c1 HF1]. rewrite E. destruct (path_eqb p l); eauto.
+  - destruct HF1 as [c1 HF1]. rewrite E. destruct (path_eqb (T ++ [n]) l); eauto.
 Qed.
 
-Lemma writes_ok_cons : forall s H o r,
-  writes_ok s H (o :: r) =
-  (let '(s1, x) := step s o in
-   (match o with WriteTo q _ => mem q H | _ => true end)
-   && writes_ok s1 (match x with OLoc l => l :: H | _ => H end) r).
-Proof. reflexivity. Qed.
+(* a location real_location has returned is a file directly in the tracker's directory, from
+   then on *)
+Lemma handed_file : forall T mid s l, forallb mid_op mid = true -> Inv T s ->
+  In (OLoc l) (snd (run s mid)) ->
+  child_of T l = true /\ exists c, look (s_fs (fst (run s mid))) l = File c.
+Proof.
+  intros T. induction mid as [|o r IH]; intros s l Hm HI Hin; [contradiction|].
+  simpl in Hm. apply andb_true_iff in Hm. destruct Hm as [Hm1 Hm2].
+  rewrite fst_run_cons. rewrite run_cons in Hin. destruct (step s o) as [s1 x] eqn:E.
+  assert (HI1 := step_keeps_inv T s o s1 x HI Hm1 E).
+  destruct (run s1 r) as [s2 xs] eqn:Er. simpl in Hin. simpl fst.
+  destruct Hin as [Hx|Hx].
+  - subst x. destruct HI as [t [Ht [HT [HF [HL HO]]]]].
+    destruct (step_some s t T o s1 (OLoc l) Ht HT (proj1 HF) Hm1 E) as [t' [Ht' [HT' Hc]]].
+    destruct Hc as [[E1 [E2 [E3 _]]] | [[p [c [_ [_ [Ex _]]]]] | [p [io [n [_ [Ex _]]]]]]]; try discriminate.
+    destruct (E3 l eq_refl) as [p [_ Hp]]. destruct (HL p l Hp) as [C F]. split; [assumption|].
+    apply (file_stays T l r s1 Hm2 HI1). rewrite E1. assumption.
+  - replace s2 with (fst (run s1 r)) by (rewrite Er; reflexivity).
+    apply IH; [assumption | assumption | rewrite Er; assumption].
+Qed.
 
-Theorem tracker_location_holds_last_write : forall f0 d n0 m1 l c m2,
+(* a handed-out location can be written, whenever *)
+Lemma handed_writable : forall f0 d n0 m1 l c, wf f0 -> look f0 d = Dir -> look f0 (d ++ [n0]) = Absent ->
+  forallb mid_op m1 = true ->
+  In (OLoc l) (snd (run (start f0) (Create (Some d) n0 :: m1))) ->
+  snd (step (alive f0 (Some d) n0 m1) (WriteTo l c)) = OOk.
+Proof.
+  intros f0 d n0 m1 l c W HD HA Hm Hin.
+  rewrite run_cons, create_some in Hin by assumption.
+  set (s1 := {| s_fs := put_dir (d ++ [n0]) f0; s_tr := Some (new_tracker (Some (d ++ [n0]))) |}) in *.
+  destruct (run s1 m1) as [s2 xs] eqn:Er. simpl in Hin. destruct Hin as [Hin|Hin]; [discriminate|].
+  destruct (handed_file (d ++ [n0]) m1 s1 l Hm (create_inv f0 d n0 W HA)) as [Cl [c0 Fl]]; [rewrite Er; assumption|].
+  assert (HI := alive_inv f0 d n0 m1 W HD HA Hm).
+  rewrite alive_some in * by assumption. fold s1 in HI |- *.
+  destruct HI as [t [_ [_ [[HTd _] _]]]].
+  simpl. unfold write_to. rewrite Fl.
+  apply child_of_spec in Cl. destruct Cl as [n Cl]. subst l. rewrite parent_child, HTd. reflexivity.
+Qed.
+
+(* whatever the environment wrote successfully — to a handed-out location or anywhere else —
+   is what the path holds while the tracker lives, until the environment writes it again *)
+Theorem tracker_written_holds_last_write : forall f0 d n0 m1 l c m2,
   wf f0 -> look f0 d = Dir -> look f0 (d ++ [n0]) = Absent ->
   forallb mid_op (m1 ++ WriteTo l c :: m2) = true ->
-  writes_ok (start f0) [] (Create (Some d) n0 :: m1 ++ WriteTo l c :: m2) = true ->
+  snd (step (alive f0 (Some d) n0 m1) (WriteTo l c)) = OOk ->
   forallb (fun o => negb (writes_to l o)) m2 = true ->
   look (s_fs (alive f0 (Some d) n0 (m1 ++ WriteTo l c :: m2))) l = File c.
 Proof.
-  intros f0 d n0 m1 l c m2 W HD HA Hm Hw Hn.
-  rewrite alive_some by assumption. rewrite writes_ok_create in Hw by assumption.
+  intros f0 d n0 m1 l c m2 W HD HA Hm Hok Hn.
   rewrite forallb_app in Hm. apply andb_true_iff in Hm. destruct Hm as [Hm1 Hm2].
   simpl in Hm2.
+  assert (HI := alive_inv f0 d n0 m1 W HD HA Hm1).
+  rewrite alive_some in * by assumption.
   set (s1 := {| s_fs := put_dir (d ++ [n0]) f0; s_tr := Some (new_tracker (Some (d ++ [n0]))) |}) in *.
-  destruct (run_ind_w_app (Rw (d ++ [n0]) s1) (step_keeps_Rw (d ++ [n0]) s1) m1 s1 [] (WriteTo l c :: m2) Hm1 Hw)
-    as [H' [[HI [HH _]] Hw2]].
-  { split; [apply create_inv; assumption|]. split; [intros x []|]. split; [reflexivity|]. intros dst []. }
   rewrite fst_run_app, fst_run_cons.
   set (sa := fst (run s1 m1)) in *.
-  rewrite writes_ok_cons in Hw2. destruct (step sa (WriteTo l c)) as [sb x] eqn:Es.
-  apply andb_true_iff in Hw2. destruct Hw2 as [Hl _]. apply mem_In in Hl.
-  destruct (HH l Hl) as [Cl [c0 Fl]].
+  destruct (step sa (WriteTo l c)) as [sb x] eqn:Es. simpl in Hok. subst x.
   assert (HIb := step_keeps_inv _ _ (WriteTo l c) _ _ HI eq_refl Es).
   assert (Hb : look (s_fs sb) l = File c).
-  { destruct HI as [t [_ [_ [[HTd _] _]]]].
-    simpl in Es. unfold write_to in Es. rewrite Fl in Es.
-    apply child_of_spec in Cl. destruct Cl as [n Cl]. subst l. rewrite parent_child, HTd in Es. simpl in Es.
-    inversion Es; subst. simpl. rewrite look_put_file, path_eqb_refl. reflexivity. }
+  { simpl in Es. unfold write_to in Es.
+    destruct (look (s_fs sa) l); [|discriminate|];
+      destruct (n_is_dir (look (s_fs sa) (parent l))); inversion Es; subst; simpl;
+      rewrite look_put_file, path_eqb_refl; reflexivity. }
   simpl.
   apply (run_ind_p (fun o => mid_op o && negb (writes_to l o))
            (fun s => Inv (d ++ [n0]) s /\ look (s_fs s) l = File c)).
   - intros s o s' x' [HIs HLs] Ho Hs. apply andb_true_iff in Ho. destruct Ho as [Ho1 Ho2].
     apply negb_true_iff in Ho2. split; [eapply step_keeps_inv; eauto|].
     rewrite (step_keeps_look _ _ _ _ _ _ HIs Ho1 Hs Ho2); [assumption | congruence].
-  - clear -Hm2 Hn. induction m2 as [|o r IH]; [reflexivity|]. simpl in *.
-    apply andb_true_iff in Hm2. apply andb_true_iff in Hn. destruct Hm2, Hn.
-    apply andb_true_iff. split; [apply andb_true_iff; split; assumption | auto].
+  - apply nw_and; assumption.
   - split; assumption.
+Qed.
+
+Theorem tracker_location_holds_last_write : forall f0 d n0 m1 l c m2,
+  wf f0 -> look f0 d = Dir -> look f0 (d ++ [n0]) = Absent ->
+  forallb mid_op (m1 ++ WriteTo l c :: m2) = true ->
+  In (OLoc l) (snd (run (start f0) (Create (Some d) n0 :: m1))) \/
+    snd (step (alive f0 (Some d) n0 m1) (WriteTo l c)) = OOk ->
+  forallb (fun o => negb (writes_to l o)) m2 = true ->
+  look (s_fs (alive f0 (Some d) n0 (m1 ++ WriteTo l c :: m2))) l = File c.
+Proof.
+  intros f0 d n0 m1 l c m2 W HD HA Hm Hh Hn.
+  apply tracker_written_holds_last_write; try assumption.
+  destruct Hh as [Hh|Hh]; [|assumption].
+  apply handed_writable; try assumption.
+  rewrite forallb_app in Hm. apply andb_true_iff in Hm. apply Hm.
 Qed.
 
 Theorem tracker_outputs_only_where_requested : forall f0 d n0 mid,
   wf f0 -> look f0 d = Dir -> look f0 (d ++ [n0]) = Absent -> forallb mid_op mid = true ->
-  writes_ok (start f0) [] (Create (Some d) n0 :: mid) = true ->
-  (forall q, look f0 q = Absent -> look (s_fs (life f0 (Some d) n0 mid)) q <> Absent -> In q (requested mid)) /\
+  (forall q, look f0 q = Absent -> look (s_fs (life f0 (Some d) n0 mid)) q <> Absent ->
+             In q (requested mid) \/ In q (written mid)) /\
   (forall dst, In dst (outs_of (alive f0 (Some d) n0 mid)) -> In dst (requested mid) /\ look f0 dst = Absent) /\
   ((forall p, In p (requested mid) -> is_prefix (d ++ [n0]) p = false) ->
    forall dst, In dst (outs_of (alive f0 (Some d) n0 mid)) ->
    exists src c, snd (step (alive f0 (Some d) n0 mid) (RealLocation dst)) = OLoc src /\
+                 child_of (d ++ [n0]) src = true /\
                  look (s_fs (alive f0 (Some d) n0 mid)) src = File c /\
-                 look (s_fs (life f0 (Some d) n0 mid)) dst = File c).
+                 look (s_fs (life f0 (Some d) n0 mid)) dst = File c) /\
+  (forall q c, is_prefix (d ++ [n0]) q = false -> ~ In q (outs_of (alive f0 (Some d) n0 mid)) ->
+     look (s_fs (alive f0 (Some d) n0 mid)) q = File c -> look (s_fs (life f0 (Some d) n0 mid)) q = File c).
 Proof.
-  intros f0 d n0 mid W HD HA Hm Hw.
-  split; [apply (tracker_scratch_empty f0 d n0 mid W HD HA Hm); assumption|].
-  assert (Hsub : forall dst, In dst (outs_of (alive f0 (Some d) n0 mid)) -> In dst (requested mid)).
-  { intros dst Hd. rewrite alive_some in Hd by assumption.
-    destruct (run_out_sub (d ++ [n0]) mid _ Hm (create_inv f0 d n0 W HA) dst Hd) as [A|A]; [contradiction | assumption]. }
-  destruct (alive_Rw f0 d n0 mid W HD HA Hm Hw) as [H' [HI [_ [HFr HOa]]]].
-  split.
-  - intros dst Hd. split; [auto|].
-    destruct (is_prefix (d ++ [n0]) dst) eqn:Ep; [eapply wf_under_absent; eauto|].
-    specialize (HOa dst Hd Ep). simpl in HOa. rewrite look_put_dir in HOa.
-    apply not_prefix in Ep. rewrite eqb_if in HOa by (intro; subst; tauto). assumption.
+  intros f0 d n0 mid W HD HA Hm.
+  split; [apply (tracker_scratch_empty f0 d n0 mid W HD HA Hm)|].
+  assert (Hsub := outs_requested f0 d n0 mid W HD HA Hm).
+  destruct (alive_Rm f0 d n0 mid W HD HA Hm) as [HI [_ HOa]].
+  split; [intros dst Hd; split; auto|]. split.
   - intros Hreq dst Hd.
     destruct (del_spec _ _ HI) as [t [g [h [Ht [Hc [Hs [Hh [Hg [_ Hcont]]]]]]]]].
     unfold outs_of in Hd, Hsub. rewrite Ht in Hd, Hsub.
     destruct HI as [t0 [Ht0 [_ [_ [HL HO]]]]]. rewrite Ht in Ht0. inversion Ht0; subst t0.
-    destruct (HO dst Hd) as [[src Hsrc] _]. destruct (HL dst src Hsrc) as [_ [c Fc]].
-    exists src, c. split; [simpl; rewrite Ht, Hsrc; reflexivity|]. split; [assumption|].
+    destruct (HO dst Hd) as [[src Hsrc] _]. destruct (HL dst src Hsrc) as [Csrc [c Fc]].
+    exists src, c. split; [simpl; rewrite Ht, Hsrc; reflexivity|]. split; [assumption|]. split; [assumption|].
     rewrite life_alive, Hs. simpl. rewrite Hh, (Hreq dst (Hsub dst Hd)).
     rewrite (Hcont (fun x Hx => Hreq x (Hsub x Hx)) dst src Hd Hsrc). assumption.
+  - intros q c Hq Hno Hqc.
+    destruct (del_spec _ _ HI) as [t [g [h [Ht [Hc [Hs [Hh [Hg _]]]]]]]].
+    unfold outs_of in Hno. rewrite Ht in Hno.
+    rewrite life_alive, Hs. simpl. rewrite Hh, Hq, Hg by assumption. assumption.
 Qed.
 
 (* ------------------------------------------------------------------ (4) the copy is faithful *)
@@ -1003,40 +1062,48 @@ Qed.
 Lemma snd_let : forall (X : state * list out) a, snd (let '(s2, xs) := X in (s2, a :: xs)) = a :: snd X.
 Proof. intros [s2 xs] a. reflexivity. Qed.
 
+Lemma same_child : forall d a b q, is_prefix (d ++ [a]) q = true -> is_prefix (d ++ [b]) q = true -> a = b.
+Proof.
+  intros d a b q Ha Hb. apply is_prefix_spec in Ha. apply is_prefix_spec in Hb.
+  destruct Ha as [r Ha]. destruct Hb as [r' Hb]. subst q.
+  rewrite <- !app_assoc in Hb. apply app_inv_head in Hb. simpl in Hb. congruence.
+Qed.
+
 Section Stale.
-Variables (d : path) (n0 : Z).
+Variables (d : path) (n0 : Z) (SE : list Z).
+Hypothesis HE : ~ In n0 SE.
 Let T := d ++ [n0].
-Let ns (q : path) : Prop := stale d T q = false.
+Let ns (q : path) : Prop := stale_in d SE q = false.
+
+Lemma stale_spec : forall q, stale_in d SE q = true -> under d q = true /\ is_prefix T q = false.
+Proof.
+  intros q H. unfold stale_in in H. apply existsb_exists in H. destruct H as [a [Ha Hp]].
+  split; [eapply under_child_prefix; eauto|].
+  destruct (is_prefix T q) eqn:Et; [|reflexivity]. exfalso. apply HE.
+  rewrite (same_child d n0 a q Et Hp). assumption.
+Qed.
 
 Lemma ns_prefix : forall q, is_prefix T q = true -> ns q.
-Proof. intros q H. unfold ns, stale. rewrite H. simpl. apply andb_false_r. Qed.
+Proof.
+  intros q H. unfold ns. destruct (stale_in d SE q) eqn:S; [|reflexivity].
+  apply stale_spec in S. destruct S. congruence.
+Qed.
 
 Lemma ns_not_under : forall q, under d q = false -> ns q.
-Proof. intros q H. unfold ns, stale. rewrite H. reflexivity. Qed.
-
-Lemma stale_spec : forall q, stale d T q = true -> under d q = true /\ is_prefix T q = false.
 Proof.
-  intros q H. unfold stale in H. apply andb_true_iff in H. destruct H as [A B].
-  apply negb_true_iff in B. auto.
+  intros q H. unfold ns. destruct (stale_in d SE q) eqn:S; [|reflexivity].
+  apply stale_spec in S. destruct S. congruence.
 Qed.
 
 Lemma ns_parent : forall q, ns q -> ns (parent q).
 Proof.
-  intros q H. destruct (is_prefix T q) eqn:Ep.
-  - apply prefix_cases in Ep. destruct Ep as [Ep|Ep].
-    + subst q. unfold T. rewrite parent_child. apply ns_not_under.
-      destruct (under d d) eqn:E; [|reflexivity]. exfalso. eapply under_neq; eauto.
-    + destruct (parent_under _ _ Ep) as [C|C].
-      * apply child_of_spec in C. destruct C as [n C]. subst q. rewrite parent_child.
-        apply ns_prefix. apply prefix_cases. auto.
-      * apply ns_prefix. apply under_is_prefix. assumption.
-  - apply ns_not_under. destruct (under d (parent q)) eqn:E; [|reflexivity]. exfalso.
-    assert (U : under d q = true).
-    { apply under_spec in E. destruct E as [n [r E]]. destruct q as [|a q'] using rev_ind.
-      - simpl in E. destruct d; discriminate.
-      - unfold parent in E. rewrite removelast_last in E. subst q'.
-        apply under_spec. exists n, (r ++ [a]). rewrite <- app_assoc. reflexivity. }
-    unfold ns, stale in H. rewrite U, Ep in H. discriminate.
+  intros q H. unfold ns in *. destruct (stale_in d SE (parent q)) eqn:S; [|reflexivity].
+  unfold stale_in in S. apply existsb_exists in S. destruct S as [a [Ha Hp]].
+  assert (X : stale_in d SE q = true); [|congruence].
+  unfold stale_in. apply existsb_exists. exists a. split; [assumption|].
+  eapply is_prefix_trans; [exact Hp|]. apply is_prefix_spec.
+  destruct q as [|x q'] using rev_ind; [exists []; reflexivity|].
+  unfold parent. rewrite removelast_last. eauto.
 Qed.
 
 Definition Sim (s s' : state) : Prop :=
@@ -1063,7 +1130,7 @@ Qed.
 
 Lemma stale_frame : forall s o s1 x,
   Inv T s -> mid_op o = true -> (forall p, In p (op_paths o) -> ns p) -> step s o = (s1, x) ->
-  forall q, stale d T q = true -> look (s_fs s1) q = look (s_fs s) q.
+  forall q, stale_in d SE q = true -> look (s_fs s1) q = look (s_fs s) q.
 Proof.
   intros s o s1 x [t [Ht [HT [HF _]]]] Hm Hp Hs q Hq.
   destruct (step_some s t T o s1 x Ht HT (proj1 HF) Hm Hs) as [t' [_ [_ Hc]]].
@@ -1078,7 +1145,7 @@ Qed.
 Lemma sim_run : forall mid s s',
   forallb mid_op mid = true -> ops_ns mid -> Sim s s' -> Inv T s -> Inv T s' ->
   snd (run s mid) = snd (run s' mid) /\ Sim (fst (run s mid)) (fst (run s' mid)) /\
-  (forall q, stale d T q = true ->
+  (forall q, stale_in d SE q = true ->
      look (s_fs (fst (run s mid))) q = look (s_fs s) q /\ look (s_fs (fst (run s' mid))) q = look (s_fs s') q).
 Proof.
   induction mid as [|o r IH]; intros s s' Hm Hn HS HI HI'; [simpl; auto|].
@@ -1102,15 +1169,15 @@ Proof.
   destruct io; [contradiction|]. assumption.
 Qed.
 
-Theorem tracker_independent_of_stale : forall f0 f0' mid,
+Theorem tracker_independent_of_stale_gen : forall f0 f0' mid,
   wf f0 -> wf f0' -> look f0 d = Dir -> look f0 T = Absent -> forallb mid_op mid = true ->
-  (forall q, stale d T q = false -> look f0 q = look f0' q) ->
-  (forall o p, In o mid -> In p (op_paths o) -> stale d T p = false) ->
+  (forall q, stale_in d SE q = false -> look f0 q = look f0' q) ->
+  (forall o p, In o mid -> In p (op_paths o) -> stale_in d SE p = false) ->
   snd (run (start f0) (Create (Some d) n0 :: mid ++ [Del])) =
   snd (run (start f0') (Create (Some d) n0 :: mid ++ [Del])) /\
-  (forall q, stale d T q = false ->
+  (forall q, stale_in d SE q = false ->
      look (s_fs (life f0 (Some d) n0 mid)) q = look (s_fs (life f0' (Some d) n0 mid)) q) /\
-  (forall q, stale d T q = true ->
+  (forall q, stale_in d SE q = true ->
      look (s_fs (life f0 (Some d) n0 mid)) q = look f0 q /\
      look (s_fs (life f0' (Some d) n0 mid)) q = look f0' q).
 Proof.
@@ -1161,6 +1228,34 @@ End Stale.
 (* ------------------------------------------------------------------ the statements as used in Props/C19.v *)
 Definition tracker_inputs_untouched := conj tracker_inputs_untouched_some tracker_inputs_untouched_none.
 
+Lemma entries_In : forall f d a, In a (entries f d) <-> lookup f (d ++ [a]) <> None.
+Proof.
+  intros f d a. unfold entries. rewrite in_flat_map. split.
+  - intros [[k e] [Hi Ha]]. simpl in Ha. destruct (strip d k) as [[|x [|y r]]|] eqn:S; try contradiction.
+    destruct Ha as [Ha|[]]. subst x. apply strip_spec in S. subst k. eapply lookup_In. exact Hi.
+  - intro H. destruct (lookup f (d ++ [a])) as [e|] eqn:L; [|congruence].
+    exists (d ++ [a], e). split; [apply lookup_Some_In; assumption|]. simpl. rewrite strip_app. left. reflexivity.
+Qed.
+
+(* stale = at or below an entry the tmp_dir parent had BEFORE the life (in either file system) *)
+Theorem tracker_independent_of_stale : forall d n0 f0 f0' mid,
+  wf f0 -> wf f0' -> look f0 d = Dir -> look f0 (d ++ [n0]) = Absent -> look f0' (d ++ [n0]) = Absent ->
+  forallb mid_op mid = true ->
+  (forall q, stale_in d (entries f0 d ++ entries f0' d) q = false -> look f0 q = look f0' q) ->
+  (forall o p, In o mid -> In p (op_paths o) -> stale_in d (entries f0 d ++ entries f0' d) p = false) ->
+  snd (run (start f0) (Create (Some d) n0 :: mid ++ [Del])) =
+  snd (run (start f0') (Create (Some d) n0 :: mid ++ [Del])) /\
+  (forall q, stale_in d (entries f0 d ++ entries f0' d) q = false ->
+     look (s_fs (life f0 (Some d) n0 mid)) q = look (s_fs (life f0' (Some d) n0 mid)) q) /\
+  (forall q, stale_in d (entries f0 d ++ entries f0' d) q = true ->
+     look (s_fs (life f0 (Some d) n0 mid)) q = look f0 q /\
+     look (s_fs (life f0' (Some d) n0 mid)) q = look f0' q).
+Proof.
+  intros d n0 f0 f0' mid W W' HD HA HA' Hm.
+  apply tracker_independent_of_stale_gen; try assumption.
+  intro Hi. apply in_app_or in Hi. destruct Hi as [Hi|Hi]; apply entries_In in Hi; apply Hi; apply look_absent; assumption.
+Qed.
+
 (* decidable forms of the hypotheses *)
 Lemma wfb_wf : forall f, wfb f = true -> wf f.
 Proof.
@@ -1174,25 +1269,42 @@ Qed.
 Lemma node_eqb_eq : forall a b, node_eqb a b = true -> a = b.
 Proof. intros [| |x] [| |y] H; simpl in H; try discriminate; try reflexivity. apply Z.eqb_eq in H. congruence. Qed.
 
-Lemma agree_b_spec : forall d T f f', agree_b d T f f' = true ->
-  forall q, stale d T q = false -> look f q = look f' q.
+Lemma agree_b_spec : forall d E f f', agree_b d E f f' = true ->
+  forall q, stale_in d E q = false -> look f q = look f' q.
 Proof.
-  intros d T f f' H q Hq. unfold agree_b in H. rewrite forallb_forall in H.
+  intros d E f f' H q Hq. unfold agree_b in H. rewrite forallb_forall in H.
   assert (X : forall e g, In (q, e) g -> In (q, e) (f ++ f') -> look f q = look f' q).
   { intros e g _ Hi. specialize (H _ Hi). simpl in H. rewrite Hq in H. apply node_eqb_eq. assumption. }
-  destruct (lookup f q) as [e|] eqn:E.
-  - apply lookup_Some_In in E. apply (X e f E). apply in_or_app. auto.
+  destruct (lookup f q) as [e|] eqn:E1.
+  - apply lookup_Some_In in E1. apply (X e f E1). apply in_or_app. auto.
   - destruct (lookup f' q) as [e'|] eqn:E'.
     + apply lookup_Some_In in E'. apply (X e' f' E'). apply in_or_app. auto.
-    + apply look_absent in E. apply look_absent in E'. congruence.
+    + apply look_absent in E1. apply look_absent in E'. congruence.
 Qed.
 
-Lemma ops_ns_b_spec : forall d T mid, ops_ns_b d T mid = true ->
-  forall o p, In o mid -> In p (op_paths o) -> stale d T p = false.
+Lemma ops_ns_b_spec : forall d E mid, ops_ns_b d E mid = true ->
+  forall o p, In o mid -> In p (op_paths o) -> stale_in d E p = false.
 Proof.
-  intros d T mid H o p Ho Hp. unfold ops_ns_b in H. rewrite forallb_forall in H.
+  intros d E mid H o p Ho Hp. unfold ops_ns_b in H. rewrite forallb_forall in H.
   specialize (H o Ho). rewrite forallb_forall in H. specialize (H p Hp).
   apply negb_true_iff in H. assumption.
+Qed.
+
+(* the boolean the harness evaluates on a recorded life gives the hypotheses of the theorems *)
+Lemma life_premise_spec : forall f0 d n0 mid, life_premise f0 d n0 mid = true ->
+  wf f0 /\ look f0 d = Dir /\ look f0 (d ++ [n0]) = Absent /\ forallb mid_op mid = true /\
+  (forall p c, look f0 p = File c -> forallb (fun o => negb (writes_to p o)) mid = true) /\
+  (forall p, In p (requested mid) -> is_prefix (d ++ [n0]) p = false) /\
+  (forall o p, In o mid -> In p (op_paths o) -> stale_in d (entries f0 d) p = false).
+Proof.
+  intros f0 d n0 mid H. unfold life_premise in H.
+  repeat (apply andb_true_iff in H; let X := fresh "H" in destruct H as [H X]).
+  split; [apply wfb_wf; assumption|]. split; [apply n_is_dir_true; assumption|].
+  split; [apply n_is_absent_true; assumption|]. split; [assumption|]. split; [|split].
+  - intros p c Hp. apply not_written. intro Hi. rewrite forallb_forall in H2. specialize (H2 p Hi).
+    rewrite Hp in H2. discriminate.
+  - intros p Hp. rewrite forallb_forall in H1. specialize (H1 p Hp). apply negb_true_iff in H1. assumption.
+  - apply ops_ns_b_spec. assumption.
 Qed.
 
 (* ------------------------------------------------------------------ a life keeps the file system well formed
